@@ -52,6 +52,9 @@ CLAIMED = {
  "C20": ("exploration", "parse-back comparators (DOT tokenizer, Mermaid flowchart parser, reference graph analysis)",
          "For 6e3/1e5 generated specs in two separately judged strata (identifier-like and hostile node names), tools.Analyze is compared with a reference graph analysis and the outputs of tools.Dot and tools.Mermaid are tokenised the way Graphviz / Mermaid read them and their node and edge multisets compared with the spec graph; panics and errors are violations.",
          "DOT / Mermaid subsets as emitted by the tools; an empty target may or may not also be listed as missing.", "DESIGN.md §4 C20"),
+ "C15": ("fault_enumeration", "shadow store folded from reported changes + restart differential at every message boundary",
+         "For 1.2e3/2e4 histories of crew operations (create / replace state / replace spec / uncompilable spec / delete / re-create, via captain messages and direct calls) interleaved with messages, a store folded from Result.Changed exactly like sio/stdio.go must equal the live crew after every message, and a crew booted from the JSON-round-tripped store at every message boundary (crash points enumerated) must give the same emissions and machine states for the rest of the history.",
+         "Machines' reactions commute; captain and timers service machines are not compared; a missing stored state is the boot default.", "DESIGN.md §4 C15"),
 }
 
 NOT_YET = "check not built yet in this session (planned: see DESIGN.md §4)"
